@@ -1,5 +1,5 @@
 #!/bin/bash
-# usage: seed_regress.sh [jobs] -- re-evaluates every stored seeded change and
+# usage: seed_regress.sh [jobs] [all|seeds|equiv] -- re-evaluates every stored seeded change and
 # every stored behaviour-preserving refactoring against the current checks.
 # Each one is applied in its own scratch worktree of /repo HEAD under /tmp
 # (VERIF_REPO points the engine at it), so /repo itself is not touched and the
@@ -7,6 +7,7 @@
 # Output: one line per change: DETECTED / MISSED (seeds), CLEAN / ALARM (equivalents).
 export GOFLAGS=-mod=mod GOPROXY=off GOSUMDB=off GOTOOLCHAIN=local
 jobs=${1:-3}
+only=${2:-all}   # all | seeds | equiv
 cd /verif
 one() {
   d=$1; name=$(basename $d); kind=$2
@@ -25,4 +26,4 @@ one() {
   fi
 }
 export -f one
-(for d in /verif/seeded/C*/; do echo "$d seed"; done; for d in /verif/seeded/equivalent/C*/; do echo "$d equiv"; done) | xargs -P $jobs -L 1 bash -c 'one $0 $1'
+( [ $only != equiv ] && for d in /verif/seeded/C*/; do echo "$d seed"; done; [ $only != seeds ] && for d in /verif/seeded/equivalent/C*/; do echo "$d equiv"; done) | xargs -P $jobs -L 1 bash -c 'one $0 $1'
